@@ -216,6 +216,18 @@ pub fn format_buf(args: Vec<Rc<Object>>) -> Result<Collector, String> {
             continue;
         }
         if in_spec {
+            // Any character directly followed by '<' or '>' is the fill
+            // character, even one that otherwise means something (':', 'x', 'b', ...)
+            if in_spec_format
+                && (next == '<' || next == '>')
+                && curr != '<'
+                && curr != '>'
+                && curr_spec_width.is_empty()
+            {
+                curr_spec_width.push(curr);
+                idx_fmt += 1;
+                continue;
+            }
             if curr == ':' {
                 in_spec_format = true;
                 idx_fmt += 1;
